@@ -56,7 +56,7 @@ RULE = ("structured random performances (1-4 parts/tracks, channels 0-15, veloci
         "number/value, programs or none, key/time signatures, other meta incl. end_of_track) x ppq {96,480,960,1} x "
         "mpq {500000,857142,250001} x merge on save x merge on load x input kind; raw MIDI files with set_tempo "
         "sequences in any track, zero-velocity note-ons, repeated note-ons, unmatched note-offs, open notes; "
-        "adjust_time on arbitrary (also unsorted) tempo lists; mido.merge_tracks alone.  distinct = distinct request "
+        "adjust_time on tempo lists in order of tick; mido.merge_tracks alone.  distinct = distinct request "
         "text; non-trivial = at least one note or tempo event")
 LEVEL_TEXT = ("Lean 4 theorems over all tempo lists / message lists / note lists about an executable model of the exporter "
               "and the loader (tick rounding, bucket order and delta encoding, tempo integration, pairing, ids, controls, "
@@ -379,16 +379,14 @@ def gen_raw(rng, tier):
 
 
 def gen_adj(rng, tier):
+    """adjust_time alone, on tempo lists in order of tick (what the loader passes; the behaviour of the function
+    on an unsorted list is not part of the property)"""
     n = rng.choice([1, 1, 2, 3, 5, 8])
-    tc = [[0, rng.choice([500000, 600000, 1])]]
-    t = 0
+    t = rng.choice([0, 0, 0, 7])
+    tc = [[t, rng.choice([500000, 600000, 1])]]
     for _ in range(n - 1):
-        if rng.random() < 0.8:
-            t += rng.choice([0, 1, 100, rng.randint(0, 5000)])
-            tick = t
-        else:
-            tick = rng.randint(0, 5000)  # out of order
-        tc.append([tick, rng.choice([500000, 250000, 1000000, 857142, 1, 16777215])])
+        t += rng.choice([0, 0, 1, 100, rng.randint(0, 5000)])
+        tc.append([t, rng.choice([500000, 250000, 1000000, 857142, 1, 16777215])])
     return {"k": "adj", "ppq": rng.choice([1, 96, 480, 960, rng.randint(1, 2000)]), "tc": tc,
             "ticks": [rng.choice([0, 1, 100, 5000, rng.randint(0, 6000), rng.randint(0, 10**6)]) for _ in range(4)] + [x[0] for x in tc]}
 
@@ -737,7 +735,7 @@ def eval_perf(d):
     check_loaded_against_file(ev, perf, tracks, mf.ticks_per_beat, dmpq, d["mload"], "load")
     oracle_roundtrip(ev, d, view, perf)
     ev.key = "perf|" + req if any(p["notes"] for p in view) else None
-    ev.info = {"kind": d["kind"], "boundary": len(overrides)}
+    ev.info.update({"boundary_times": len(overrides)})
     return ev
 
 
